@@ -37,16 +37,25 @@ def _is_expression_with_error(nodes):
 
     if nodes[0].type not in _VARIABLE_EXCTRACTABLE:
         return False, 'Cannot extract a "%s"' % nodes[0].type
-    if _is_assignment_target(nodes[0]):
+    if _is_assignment_target(nodes):
         return False, 'Cannot extract the target of an assignment'
     return True, ''
 
 
-def _is_assignment_target(node):
+def _is_assignment_target(nodes):
     """
-    Is the node (part of) the left hand side of an assignment like
-    ``foo[0] = bar.baz = 3``?
+    Are the nodes (part of) the left hand side of an assignment like
+    ``foo[0] = bar.baz = 3`` or the keyword of an argument ``foo(bar=3)``?
     """
+    node = nodes[0]
+    parent = node.parent
+    if parent is not None and parent.type in ('atom_expr', 'power') \
+            and node is parent.children[0] and nodes[-1] is parent.children[-1]:
+        # All the parts of `foo.bar[0]`.
+        node = parent
+    elif parent is not None and parent.type == 'argument' \
+            and node is parent.children[0] and parent.children[1] == '=':
+        return True
     while node.parent is not None \
             and node.parent.type in ('testlist_star_expr', 'atom', 'testlist_comp',
                                      'exprlist', 'star_expr'):
@@ -243,10 +252,12 @@ def extract_function(inference_state, path, module_context, name, pos, until_pos
         parent = nodes[0].parent
         if parent.type == 'simple_stmt' and len(parent.children) == 2:
             nodes = [parent]
-    if not is_expression and any(
-            n.parent.type not in _DEFINITION_SCOPES + ('simple_stmt',) for n in nodes):
+    if not is_expression and (
+            pos[0] > nodes[0].start_pos[0]
+            or any(n.parent.type not in _DEFINITION_SCOPES + ('simple_stmt',) for n in nodes)):
         # Neither an expression nor whole statements, e.g. just the name that
-        # an assignment defines or a keyword in the middle of a statement.
+        # an assignment defines, a keyword in the middle of a statement or a
+        # range that starts at the `else` of an if statement.
         raise RefactoringError(message)
     context = module_context.create_context(nodes[0])
     is_bound_method = context.is_bound_method()
